@@ -267,6 +267,20 @@ def decimal_decode_rule(ctx):
     ok = len(mo) == 1 and const_int(mo[0][1]['args'][1]) == 0
     ctx.ob('DECDECODE', 'empty-mantissa-is-not-negative', ok, short_loc(mo[0][1].get('span')) if mo else short_loc(b.span),
            'the sign test of the first mantissa byte defaults to false when there is no byte: %s' % ok)
+    # ... and the test itself is the top bit of that byte: (v & 0x80) != 0 - not a magnitude comparison, which misses
+    # the byte 0x80 itself
+    top = False
+    if mo:
+        for a_ in origin(b, mo[0][1]['args'][2]).atoms if len(mo[0][1]['args']) > 2 else ():
+            cb_ = f.bodies.get(a_[1]) if a_[0] == 'closure' else None
+            if cb_ is None:
+                continue
+            bins = [s_['rv'] for bb_ in cb_.live_blocks() for s_ in cb_.stmts(bb_) if 'assign' in s_ and s_['rv']['k'] in ('bin', 'checked_bin')]
+            ands = [r_ for r_ in bins if r_['op'] == 'BitAnd' and 128 in (const_int(r_['l']), const_int(r_['r']))]
+            cmps = [r_ for r_ in bins if r_['op'] in ('Eq', 'Ne', 'Lt', 'Le', 'Gt', 'Ge')]
+            top = len(ands) == 1 and len(cmps) == 1 and cmps[0]['op'] == 'Ne' and 0 in (const_int(cmps[0]['l']), const_int(cmps[0]['r'])) and len(bins) == 2
+    ctx.ob('DECDECODE', 'sign-is-the-top-bit-of-the-first-byte', top, short_loc(mo[0][1].get('span')) if mo else short_loc(b.span),
+           'the sign test is (first byte & 0x80) != 0: %s' % top)
     # leftover bytes of a big-decimal
     lim = [(bb, t) for bb, t in b.calls() if strip_generics(cname(t)).endswith('Take::limit') and not b.is_cleanup(bb)]
     ok = False
